@@ -171,7 +171,7 @@ def _body_lines(body: dict, params: list[str], env_name: str = "_E") -> list[str
         return [f"return ({body['t']!r}, (lambda _y: (_y, {int(body['k'])}))({first}))"]
     if b == "closure":
         # factory-made function: `_c` is a variable captured from the enclosing factory call (Python side only)
-        return [f"return ({body['t']!r}, _c) + {tup}"]
+        return [f"return ({body['t']!r}, _c, _d) + {tup}"]
     if b == "nonBool":
         return ["return 1"]
     if b == "wrongArity":
@@ -230,9 +230,10 @@ def make_function(spec: dict, fnid: str, env: Env, *, is_async: bool) -> Any:
         import hashlib
         import linecache
 
-        lines = ["def _factory(_c):"] + ["    " + ln for ln in lines] + [f"    return {fname}", f"{fname} = _factory(_CAPTURED)", ""]
+        lines = ["def _factory(_c, _d):"] + ["    " + ln for ln in lines] + [f"    return {fname}", f"{fname} = _factory(_CAPTURED, _CAPTURED2)", ""]
         src = "\n".join(lines)
         glob["_CAPTURED"] = py_val(spec["body"]["c"])
+        glob["_CAPTURED2"] = py_val(spec["body"].get("c2"))
         glob["__name__"] = "verif_generated"
         file = f"/verif-generated/closure_{hashlib.sha1(src.encode()).hexdigest()[:12]}.py"
         linecache.cache[file] = (len(src), None, src.splitlines(True), file)
